@@ -120,6 +120,23 @@ Fixpoint contract (w : world) (h : list sev) : Prop :=
   | SCb e :: r => cb_ok w e ∧ contract (apply_cb w e) r
   | SFlush _ :: r => closed w ∧ contract w r
   end.
+(* "No re-targeting": a route that stays keeps alive the VTEP it needed so far.  This is the extra
+   restriction under which the VXLAN phase order of the code as it stands
+   (flushRouteRemoves; flushVTEPRemoves; flushVTEPAdds; flushRouteAdds) is safe; the real route
+   resolver does NOT guarantee it (see c02_vtep_retarget_refuted and known-findings.txt).  It is not
+   needed for the repaired order (VTEP removes last). *)
+Definition no_retarget (dp up : world) : Prop :=
+  ∀ c v0, c.1 = KRoute → w_kv dp !! c = Some v0 → is_Some (w_kv up !! c) → Forall (present up) (v_refs v0).
+
+(* contract for the order selected by [late] (false = code as it stands): [dp] is the upstream world
+   at the last flush, which is what the dataplane holds *)
+Fixpoint contract_gen (late : bool) (dp up : world) (h : list sev) : Prop :=
+  match h with
+  | [] => True
+  | SCb e :: r => cb_ok up e ∧ contract_gen late dp (apply_cb up e) r
+  | SFlush _ :: r => closed up ∧ (late = false → no_retarget dp up) ∧ contract_gen late up up r
+  end.
+
 Fixpoint upstream (w : world) (h : list sev) : world :=
   match h with
   | [] => w
